@@ -55,7 +55,10 @@ BLOCK = 2048
 def symbols(names, seed):
     a, b = VALID_VALUES[seed % 4]
     inv = -9999.0 if seed % 2 == 0 else float("nan")
-    table = {"a": (a, 0), "b": (b, 0), "i": (inv, 2), "o": (7.0, 256), "m": (-7.0, 512)}
+    # O / M: flagged again by a second cross-check although an earlier validation step already filled them
+    # (they still carry the "filled" bit 4 / 5): the bit swap must not depend on it
+    table = {"a": (a, 0), "b": (b, 0), "i": (inv, 2), "o": (7.0, 256), "m": (-7.0, 512),
+             "O": (6.0, 256 + 16), "M": (-6.0, 512 + 32)}
     disp = np.array([table[n][0] for n in names], dtype=np.float32)
     flag = np.array([table[n][1] for n in names], dtype=np.uint16)
     return disp, flag
@@ -85,6 +88,8 @@ SPACES = {
     "o1-3x1/5": ((3, 1), "abiom", 1, None),
     "o1-2x3/5": ((2, 3), "abiom", 1, None),
     "1x4/5": ((1, 4), "abiom", 0, None),
+    "2x3/7": ((2, 3), "abiomOM", 0, None),
+    "1x4/7": ((1, 4), "abiomOM", 0, None),
     "4x1/5": ((4, 1), "abiom", 0, None),
 }
 
@@ -102,6 +107,8 @@ def spaces(tier, seed):
         sp("all 1x4 maps over 5 symbols", 0, "1x4/5"),
         sp("all 4x1 maps over 5 symbols", 0, "4x1/5"),
         sp("all 2x3 maps over 5 symbols", 0, "2x3/5"),
+        sp("all 1x4 maps over 7 symbols (incl. pixels flagged again after an earlier fill)", 1, "1x4/7"),
+        sp("all 2x3 maps over 7 symbols (incl. pixels flagged again after an earlier fill)", 1, "2x3/7"),
         sp("all 3x3 maps over {valid, invalid, occluded, mismatched}", 0, "3x3/4"),
         sp("all 2x4 maps over {valid, invalid, occluded, mismatched}", 0, "2x4/4"),
         sp("offset 1: all 2x2 interiors inside a border frame", 1, "o1-2x2/5"),
